@@ -16,7 +16,7 @@
 (*        (PurlWriter.tla) and to the region-free predicates below.        *)
 (* Judge turns that into the verdict printed with every case.              *)
 (***************************************************************************)
-EXTENDS PurlParse
+EXTENDS PurlDefects
 
 KeyOf(it) == Take(it, FirstIdx(it, EQ) - 1)
 ValOf(it) == Drop(it, FirstIdx(it, EQ))
@@ -63,6 +63,9 @@ StrictRead(s, shape, tab) ==
       dup == {pr \in (1..Len(withEq)) \X (1..Len(withEq)) :
                  pr[1] < pr[2] /\ ALowerS(KeyOf(withEq[pr[1]])) = ALowerS(KeyOf(withEq[pr[2]]))}
       dupHard == {pr \in dup : ValOf(withEq[pr[1]]) # <<>> /\ ValOf(withEq[pr[2]]) # <<>>}
+      \* a malformed checksum is a listed fault wherever else the string is faulty (two faults: the class is free)
+      ckBad == \E i \in 1..Len(withEq) : /\ ALowerS(KeyOf(withEq[i])) = CHECKSUM
+                                         /\ LET d == Decode(ValOf(withEq[i])) IN d.ok /\ d.s # <<>> /\ ~CkCanon(d.s, tab).ok
       typed == shape.kind = "typed"
       W(e) == IF typed THEN "Parse:" \o e ELSE e
       typeBad == a.path # <<>> /\ ~ValidType(a.type)
@@ -72,7 +75,7 @@ StrictRead(s, shape, tab) ==
                 \cup (IF a.path # <<>> /\ (~a.hasSlash \/ a.nameRaw = <<>>) THEN {W("MissingName")} ELSE {})
                 \cup (IF ~Decode(a.nameRaw).ok \/ ~Decode(a.verR).ok THEN {W("InvalidEscape")} ELSE {})
                 \cup {W(e) : e \in SegFaults(a.nsSegs, FALSE) \cup SegFaults(a.subSegs, TRUE)}
-                \cup (IF noEq # {} \/ badKey # {} \/ dupHard # {} THEN {W("InvalidQualifier")} ELSE {})
+                \cup (IF noEq # {} \/ badKey # {} \/ dupHard # {} \/ ckBad THEN {W("InvalidQualifier")} ELSE {})
                 \cup (IF badVal # {} THEN {W("InvalidEscape")} ELSE {})
                 \cup (IF typed /\ a.path # <<>> /\ ~typeBad /\ ~Lookup(a.type).ok THEN {"UnsupportedType"} ELSE {})
                 \cup (IF typed /\ ALowerS(a.type) = MAVEN /\ nsKept = <<>> THEN {"MissingNamespace"} ELSE {})
@@ -115,12 +118,15 @@ NeverAccept(s) == ~StartsWith(s, PKG) \/ ~Decode(s).ok
 (*   j = "rej"  : out must be an error, class free                         *)
 (*   j = "un"   : unjudged; only the universal properties apply            *)
 (***************************************************************************)
-Judge(s, shape, tab) ==
+JudgeRaw(s, shape, tab) ==
   LET r == StrictRead(s, shape, tab) IN
   IF r.kind = "accept" THEN [j |-> "acc", v |-> r.v, str |-> Render(r.v)]
   ELSE IF r.kind = "fault" THEN
        (IF Cardinality(r.cls) = 1 THEN [j |-> "err", err |-> CHOOSE e \in r.cls : TRUE] ELSE [j |-> "rej"])
   ELSE IF NeverAccept(s) THEN [j |-> "rej"] ELSE [j |-> "un"]
+\* C05 fixes the class "when that defect is the only one": the reader's class is demanded only if the order-free
+\* analysis (PurlDefects) finds no second defect; MC_Parse / MC_Spell check that it always finds the reader's own
+Judge(s, shape, tab) == Demote(JudgeRaw(s, shape, tab), AllDefects(s, shape, tab))
 
 \* design-level agreement between the transcribed parser and the verdict
 Agrees(out, jd) ==
